@@ -6,7 +6,8 @@ Base inputs: tri-alanine, ala5 and 4-residue peptides cut from the repository's 
 hydrogens; villin for MET; bpti for a disulfide) so that all 20 residue types, a disulfide and a histidine
 occur.  Options: default, -elastic, -p backbone, -ss, -nt, -cys none, -ff martini22.
 For each (input, options): the 0-deviation run, then EVERY 1-deviation run:
-  * each adjacent transposition of two atoms within each residue (serials renumbered),
+  * each adjacent transposition of two atoms within each residue (serials renumbered), each atom moved to the
+    front of its residue, each residue listed backwards,
   * each single hydrogen renamed, and all hydrogens renamed at once,
   * each of the 24 axis rotations combined with a decimal translation, applied in the PDB text (exact),
   * each hash seed of the seed set (one interpreter per seed),
@@ -37,6 +38,7 @@ ASSUMPTIONS = ["motions are the 24 axis rotations with decimal translations appl
 DATA = os.path.join(common.REPO, 'vermouth', 'tests', 'data')
 FRAGMENTS = {
     'tri-ala': ('tri_alanine.pdb', None),
+    'ala1-zwitterion': ('ala5.pdb', 'zwitterion'),
     'ala5': ('ala5.pdb', None),
     'bta15-18': ('1bta.pdb', [('A', 15, 18)]),      # ASP LEU HIS GLN
     'bta38-41': ('1bta.pdb', [('A', 38, 41)]),      # TRP ASP CYS LEU
@@ -75,7 +77,17 @@ def load_atoms(name):
             chain, resid = line[21], int(line[22:26])
             if line[16] not in ' A':
                 continue
-            if ranges is not None and not any((c is None or c == chain or chain == ' ') and lo <= resid <= hi for c, lo, hi in ranges):
+            if ranges == 'zwitterion':
+                # residue 1 with its three amine hydrogens, plus the position of the next residue's N as the second
+                # carboxylate oxygen (a real coordinate of the file, 1.33 A from C)
+                if resid == 1:
+                    pass
+                elif resid == 2 and line[12:16].strip() == 'N':
+                    line = line[:12] + ' OXT' + line[16:22] + '%4d' % 1 + line[26:76] + ' O' + line[78:]
+                    chain, resid = line[21], 1
+                else:
+                    continue
+            elif ranges is not None and not any((c is None or c == chain or chain == ' ') and lo <= resid <= hi for c, lo, hi in ranges):
                 continue
             atoms.append({'line': line, 'name': line[12:16], 'res': (chain, resid, line[26]),
                           'xyz': (float(line[30:38]), float(line[38:46]), float(line[46:54])),
@@ -100,6 +112,12 @@ def deviations_of(atoms, tier):
     for res, idxs in residues.items():
         for a, b in zip(idxs[:-1], idxs[1:]):
             devs.append(('swap', a, b))
+    # larger within-residue permutations: every atom moved to the front of its residue, every residue reversed
+    for res, idxs in residues.items():
+        for a in idxs[1:]:
+            devs.append(('to-front', a, idxs[0]))
+        if len(idxs) > 2:
+            devs.append(('reverse', idxs[0], idxs[-1]))
     hydrogens = [i for i, a in enumerate(atoms) if a['element'] == 'H']
     for i in hydrogens:
         devs.append(('rename-h', i))
@@ -119,6 +137,11 @@ def apply_deviation(atoms, dev):
     motion = None
     if kind == 'swap':
         atoms[dev[1]], atoms[dev[2]] = atoms[dev[2]], atoms[dev[1]]
+    elif kind == 'to-front':
+        atom = atoms.pop(dev[1])
+        atoms.insert(dev[2], atom)
+    elif kind == 'reverse':
+        atoms[dev[1]:dev[2] + 1] = atoms[dev[1]:dev[2] + 1][::-1]
     elif kind == 'rename-h':
         atoms[dev[1]]['name'] = ('HX%d' % (dev[1] % 10)).ljust(4)
     elif kind == 'rename-all-h':
@@ -255,12 +278,12 @@ def work(task):
             acc.case(nontrivial=True, outcome=(name, opts, res['exit'], dev[0]),
                      sample=dict(case, exit=res['exit']) if acc.states % 97 == 0 else None)
             if res['exit'] != res0['exit']:
-                acc.violation('c11:exit-status', '%s %s: deviation %r makes the run exit with %r instead of %r\n%s' % (
+                acc.violation('c11:exit-status@%s[%s]' % (name, opts), '%s %s: deviation %r makes the run exit with %r instead of %r\n%s' % (
                     name, opts, dev, res['exit'], res0['exit'], res['stderr'][-600:]), case)
                 continue
             verdict = compare(base_out, out, motion)
             if verdict:
-                acc.violation(verdict[0], '%s [%s] deviation %r: %s' % (name, opts, dev, verdict[1]), case)
+                acc.violation('%s@%s[%s]' % (verdict[0], name, opts), '%s [%s] deviation %r: %s' % (name, opts, dev, verdict[1]), case)
     finally:
         shutil.rmtree(base, ignore_errors=True)
     return acc
@@ -275,10 +298,20 @@ def seed_worker(seed, plan_path, out_path):
     base = tempfile.mkdtemp(prefix='verif_c11s_')
     results = {}
     try:
-        for n, (name, opts) in enumerate(plan):
+        for n, (name, opts, devname) in enumerate(plan):
             atoms = load_atoms(name)
-            res, out, _ = run_case(base, name, opts, atoms, ('none',), 's%d' % n)
-            results['%s|%s' % (name, opts)] = {'exit': res['exit'], 'out': out}
+            dev = ('none',)
+            if devname == 'reversed-residues':
+                residues = {}
+                for idx, atom in enumerate(atoms):
+                    residues.setdefault(atom['res'], []).append(idx)
+                dev = ('none',)
+                new = []
+                for res, idxs in residues.items():
+                    new.extend(atoms[i] for i in reversed(idxs))
+                atoms = new
+            res, out, _ = run_case(base, name, opts, atoms, dev, 's%d' % n)
+            results['%s|%s|%s' % (name, opts, devname)] = {'exit': res['exit'], 'out': out}
     finally:
         shutil.rmtree(base, ignore_errors=True)
     with open(out_path, 'w') as handle:
@@ -310,11 +343,11 @@ def run_seeds(ctx, plan, seeds):
         for seed in seeds[1:]:
             for key, ref in results[ref_seed].items():
                 got = results[seed][key]
-                name, opts = key.split('|')
-                case = {'input': name, 'options': opts, 'deviation': ['hashseed', seed], 'reference_seed': ref_seed}
+                name, opts, devname = key.split('|')
+                case = {'input': name, 'options': opts, 'deviation': ['hashseed', seed, devname], 'reference_seed': ref_seed}
                 acc.case(nontrivial=True, outcome=('seed', key, got['exit']), sample=case if acc.states % 11 == 0 else None)
                 if got['exit'] != ref['exit']:
-                    acc.violation('c11:hashseed-exit-status', '%s: PYTHONHASHSEED=%d exits %r, seed %d exits %r' % (key, seed, got['exit'], ref_seed, ref['exit']), case)
+                    acc.violation('c11:hashseed-exit-status@%s[%s]' % (name, opts), '%s: PYTHONHASHSEED=%d exits %r, seed %d exits %r' % (key, seed, got['exit'], ref_seed, ref['exit']), case)
                     continue
 
                 def thaw(out):
@@ -329,7 +362,8 @@ def run_seeds(ctx, plan, seeds):
                     return out
                 verdict = compare(thaw(ref['out']), thaw(got['out']), None)
                 if verdict:
-                    acc.violation('c11:hashseed-' + verdict[0].split(':', 1)[1], '%s: PYTHONHASHSEED=%d vs %d: %s' % (key, seed, ref_seed, verdict[1]), case)
+                    acc.violation('c11:hashseed-%s@%s[%s]' % (verdict[0].split(':', 1)[1], name, opts),
+                                  '%s: PYTHONHASHSEED=%d vs %d: %s' % (key, seed, ref_seed, verdict[1]), case)
     finally:
         shutil.rmtree(scratch, ignore_errors=True)
     return acc
@@ -362,13 +396,14 @@ def bind_driver(name):
 
 def run(ctx):
     if ctx.quick:
-        inputs = ['tri-ala', 'bta15-18', 'bta38-41', 'villin52-55', 'bpti-ss']
-        optsets = {'tri-ala': ['default', 'elastic', 'posres', 'ss', 'nt'], 'bta15-18': ['elastic', 'martini22'], 'bta38-41': ['elastic', 'cys-none'],
+        inputs = ['tri-ala', 'ala5', 'ala1-zwitterion', 'bta15-18', 'bta38-41', 'villin52-55', 'bpti-ss']
+        optsets = {'tri-ala': ['default', 'posres', 'ss', 'nt'], 'ala5': ['elastic', 'nt'], 'ala1-zwitterion': ['default'], 'bta15-18': ['elastic', 'martini22'], 'bta38-41': ['elastic', 'cys-none'],
                    'villin52-55': ['elastic'], 'bpti-ss': ['elastic', 'cys-none']}
         seeds = [0, 1, 2, 3 + ctx.seed % 50]
     else:
         inputs = list(FRAGMENTS)
         optsets = {name: list(OPTIONS) for name in inputs}
+        optsets['ala1-zwitterion'] = ['default', 'elastic']
         seeds = list(range(16)) + [100 + ctx.seed % 1000]
     ctx.bound = {'inputs': inputs, 'deviations': 1 if ctx.quick else '1, plus pairs (motion x transposition), (all-H renamed x transposition)',
                  'hash_seeds': seeds}
@@ -392,7 +427,7 @@ def run(ctx):
     for part in common.pmap(work, tasks):
         acc += part
     ctx.layer('presentations', acc)
-    plan = [(name, opts) for name in inputs for opts in optsets[name]]
+    plan = [(name, opts, devname) for name in inputs for opts in optsets[name] for devname in ('as-given', 'reversed-residues')]
     ctx.layer('hash-seeds', run_seeds(ctx, plan, seeds))
 
 
@@ -400,7 +435,7 @@ def replay(case):
     common.bind_repo()
     dev = case['deviation']
     if dev and dev[0] == 'hashseed':
-        ctx_plan = [(case['input'], case['options'])]
+        ctx_plan = [(case['input'], case['options'], dev[2] if len(dev) > 2 else 'as-given')]
 
         class _Ctx:
             seed = 0
